@@ -388,3 +388,158 @@ def witness(prop, t, consumed, clause):
   return {'kind': t['cfg']['kind'], 'level': t['cfg']['level'],
           'unreachable_at_first_connect': first_attempt_failed,
           'event': ev[consumed]['e'] if consumed < len(ev) else None}
+
+
+# ------------------------------------------------------------------ direction A (Resurrector.tla on the real ResurrectorSink)
+def _replay_resurrector(beh):
+  """Step the real ResurrectorSink (over a scripted sink factory) through one TLC behaviour of
+  Resurrector.tla; W = <<2,3,5>> corresponds to initial 2 s, exponent log2(3), max 5 s."""
+  import math
+  loop = common.boot()
+  import gevent
+  from scales.asynchronous import AsyncResult
+  from scales.constants import ChannelState, SinkProperties
+  from scales.loadbalancer.zookeeper import Endpoint
+  from scales.message import MethodCallMessage, MethodReturnMessage, FailedFastError
+  from scales.resurrector import ResurrectorSink
+  from scales.sink import ClientMessageSink, ClientMessageSinkStack
+  loop.settle()
+  base = loop.now()
+  W = beh[0][1].get('_W') or [2, 3, 5]
+  created = []
+  env = {'reach': True}
+
+  class Sink(ClientMessageSink):
+    def __init__(self):
+      super(Sink, self).__init__()
+      self._st = ChannelState.Idle
+      self.open_ar = None
+      self.closed = 0
+      self.reqs = 0
+
+    def Open(self):
+      self.open_ar = AsyncResult()
+      return self.open_ar
+
+    def Close(self):
+      self.closed += 1
+      self._st = ChannelState.Closed
+
+    @property
+    def state(self):
+      return self._st
+
+    def AsyncProcessRequest(self, sink_stack, msg, stream, headers):
+      self.reqs += 1
+      if self._st == ChannelState.Open:
+        sink_stack.AsyncProcessResponseMessage(MethodReturnMessage(return_value='ok'))
+      else:
+        sink_stack.AsyncProcessResponseMessage(MethodReturnMessage(error=Exception('dead sink')))
+
+    def AsyncProcessResponse(self, *a):
+      pass
+
+  class Factory(object):
+    def CreateSink(self, props):
+      s_ = Sink()
+      created.append(s_)
+      return s_
+  params = ResurrectorSink.Builder(initial_wait_interval=W[0], max_wait_interval=W[-1],
+                                   backoff_exponent=math.log(W[1]) / math.log(W[0])).sink_properties
+  rs = ResurrectorSink(Factory(), params, {SinkProperties.Endpoint: Endpoint('10.0.0.1', 9090), SinkProperties.Label: 'svc'})
+  out = []
+
+  class Terminal(ClientMessageSink):
+    def AsyncProcessRequest(self, *a):
+      raise NotImplementedError()
+
+    def AsyncProcessResponse(self, sink_stack, context, stream, msg):
+      err = getattr(msg, 'error', None)
+      out.append('failfast' if isinstance(err, FailedFastError) else ('error' if err is not None else 'value'))
+  terminal = Terminal()
+  # Init of the model: nextSink = live, subscribed
+  ar = rs.Open()
+  loop.settle()
+  created[-1]._st = ChannelState.Open
+  created[-1].open_ar.set(True)
+  loop.settle()
+  attempts = [0]
+  drift = None
+  steps = 0
+  prev = beh[0][1]
+  for (act, st) in beh[1:]:
+    name, params_ = act
+    if name != 'Tick':
+      loop.advance_to(base + prev['now'])     # exactly on the tick (Tick stops just short of it), nothing runs
+    if name == 'Unreach':
+      env['reach'] = False
+      cur = rs.next_sink
+      if cur is not None and cur._st == ChannelState.Open and prev['subscribed']:
+        cur._st = ChannelState.Closed
+        cur.on_faulted.Set(Exception('connection lost'))      # notification is spawned (deferred)
+    elif name == 'Reach':
+      env['reach'] = True
+    elif name == 'DeliverFault':
+      loop.run_until_idle()
+    elif name == 'RetryWake':
+      loop.run_until(base + st['now'])
+      loop.settle()
+    elif name == 'AttemptDone':
+      s_ = created[-1]
+      if env['reach']:
+        s_._st = ChannelState.Open
+        s_.open_ar.set(True)
+      else:
+        s_._st = ChannelState.Closed
+        s_.open_ar.set_exception(Exception('refused'))
+      loop.settle()
+    elif name == 'Request':
+      stack = ClientMessageSinkStack()
+      stack.Push(terminal, 0)
+      msg = MethodCallMessage(None, 'hi', (), {})
+      gevent.spawn(rs.AsyncProcessRequest, stack, msg, None, {})
+      # gevent runs greenlets FIFO: a request spawned after a fault notification runs after it, so while
+      # the model still has a notification in flight the request just stays queued
+      if prev['inflight'] == 0:
+        loop.step(2)
+    elif name == 'OwnerClose':
+      rs.Close()
+    elif name == 'Tick':
+      # just short of the tick, so that a retry timer due exactly at it fires in the RetryWake step
+      loop.run_until(base + st['now'] - 0.001)
+    steps += 1
+    prev = st
+    try:
+      g = rs._resurrector
+      alive = g is not None and not g.dead
+      opening = bool(created) and created[-1].open_ar is not None and not created[-1].open_ar.ready() and alive
+      real = {'downOn': rs._down_on is not None, 'none': rs.next_sink is None,
+              'rpc': ('opening' if opening else 'sleeping') if alive else 'none',
+              'now': int(round(loop.now() - base))}
+    except Exception:
+      real = None
+    if real is not None and drift is None:
+      spec = {'downOn': st['downOn'], 'none': st['nextSink'] == 'none', 'rpc': st['rpc'], 'now': st['now']}
+      if st['inflight'] == 0 and spec != real:
+        drift = {'step': steps, 'action': [name, params_], 'spec': spec, 'real': real}
+  return {'steps': steps, 'drift': drift}
+
+
+def replay_behaviours(prop, tier, seed):
+  from harness import tlc
+  # every transition of the complete state graph of the bounded model (2k states quick, 6.6k thorough)
+  behs, gstats = tlc.graph_behaviours('Resurrector', 'Resurrector_q.cfg' if tier == 'quick' else 'Resurrector_t.cfg',
+                                      seed=int(seed))
+  if tier != 'quick':
+    for b in behs:
+      b[0][1]['_W'] = [2, 4, 8]
+  res = common.run_forked(_replay_resurrector, behs)
+  errs_ = [x['err'] for x in res if 'err' in x]
+  if errs_:
+    raise RuntimeError('resurrector replay failed: ' + errs_[0])
+  drift = [x['ok']['drift'] for x in res if x['ok']['drift']]
+  summ = {'model': 'Resurrector', 'behaviours_replayed': len(behs),
+          'steps_compared': sum(x['ok']['steps'] for x in res), 'drift': len(drift)}
+  summ.update(gstats)
+  return {'summary': summ,
+          'traces': [], 'drift': drift}
